@@ -41,8 +41,10 @@ def configs(tier, seed):
         single += [(6, 2, 1.0, 0.5, 1), (5, 1, 2.0, 0.75, 2), (4, 4, 0.5, 0.5, 1)]
     for (G, s, isc, eff, B) in single:
         out.append(dict(kind="single", G=G, stride=s, input_scale=isc, eff=eff, batch=B, refinement=None))
+    # integral refinement with the weak bound (half a cell + (P-1)/2 cells) and the NaN/0 contract for invisible nodes, incl. an invisible node BEFORE a visible one
+    out.append(dict(kind="single", G=2, stride=2, input_scale=1.0, eff=1.0, batch=1, refinement="integral"))
     if tier == "thorough":
-        out.append(dict(kind="single", G=3, stride=2, input_scale=1.0, eff=1.0, batch=1, refinement="integral"))
+        out.append(dict(kind="single", G=3, stride=2, input_scale=0.5, eff=1.0, batch=1, refinement="integral"))
     td = [dict(kind="topdown", H=8, W=8, cstride=2, istride=2, crop=4, c_scale=1.0, i_scale=1.0, eff=1.0),
           dict(kind="topdown", H=8, W=8, cstride=1, istride=1, crop=4, c_scale=0.5, i_scale=1.0, eff=1.0),
           dict(kind="topdown", H=8, W=8, cstride=2, istride=2, crop=4, c_scale=1.0, i_scale=1.0, eff=0.5)]
